@@ -112,9 +112,11 @@ func (self *Analyzer) lastIsErrorAt(span errors.Span) bool {
 @*/
 
 /*@ func (self *Analyzer) expectLoopToReturnNull
-    serves C03
-    trusted
+    serves C03, C09
+    assume-safety
     ensures @diagnostics-kept len(self.diagnostics) >= old(len(self.diagnostics))
+    ensures @body-with-a-value-rejected typ.Kind() != ast.UnknownTypeKind && typ.Kind() != ast.NeverTypeKind && typ.Kind() != ast.NullTypeKind ==> len(self.diagnostics) == old(len(self.diagnostics))+1
+    ensures @body-without-value-accepted typ.Kind() == ast.UnknownTypeKind || typ.Kind() == ast.NeverTypeKind || typ.Kind() == ast.NullTypeKind ==> len(self.diagnostics) == old(len(self.diagnostics))
     ensures @loop-depth-kept self.currentModule == old(self.currentModule) && self.currentModule.LoopDepth == old(self.currentModule.LoopDepth) && self.currentModule.CurrentLoopIsTerminated == old(self.currentModule.CurrentLoopIsTerminated)
 @*/
 
@@ -270,4 +272,13 @@ func vb2i(b bool) int {
     ensures @no-else-means-no-value len(self.diagnostics) == old(len(self.diagnostics)) && result.ElseBlock == nil ==> result.ResultType.Kind() == ast.NullTypeKind
     ensures @branches-of-one-kind len(self.diagnostics) == old(len(self.diagnostics)) && result.ElseBlock != nil ==> result.ThenBlock.ResultType.Kind() == result.ElseBlock.ResultType.Kind() || result.ThenBlock.ResultType.Kind() == ast.AnyTypeKind || result.ThenBlock.ResultType.Kind() == ast.UnknownTypeKind || result.ThenBlock.ResultType.Kind() == ast.NeverTypeKind || result.ElseBlock.ResultType.Kind() == ast.AnyTypeKind || result.ElseBlock.ResultType.Kind() == ast.UnknownTypeKind || result.ElseBlock.ResultType.Kind() == ast.NeverTypeKind
     ensures @type-of-the-whole len(self.diagnostics) == old(len(self.diagnostics)) && result.ElseBlock != nil ==> result.ResultType.Kind() == result.ElseBlock.ResultType.Kind() || result.ResultType.Kind() == result.ThenBlock.ResultType.Kind()
+@*/
+
+/*@ func (self *Analyzer) tryExpression
+    serves C03, C02, C09
+    assume-safety
+    assumepre block, TypeCheck, SetSpan, addVar
+    ensures @reports-only len(self.diagnostics) >= old(len(self.diagnostics))
+    ensures @branches-of-one-kind len(self.diagnostics) == old(len(self.diagnostics)) ==> result.TryBlock.ResultType.Kind() == result.CatchBlock.ResultType.Kind() || result.TryBlock.ResultType.Kind() == ast.AnyTypeKind || result.TryBlock.ResultType.Kind() == ast.UnknownTypeKind || result.TryBlock.ResultType.Kind() == ast.NeverTypeKind || result.CatchBlock.ResultType.Kind() == ast.AnyTypeKind || result.CatchBlock.ResultType.Kind() == ast.UnknownTypeKind || result.CatchBlock.ResultType.Kind() == ast.NeverTypeKind
+    ensures @type-of-the-whole len(self.diagnostics) == old(len(self.diagnostics)) ==> result.ResultType.Kind() == result.TryBlock.ResultType.Kind() || result.ResultType.Kind() == result.CatchBlock.ResultType.Kind()
 @*/
